@@ -155,8 +155,9 @@ def check_engines(ctx, progs, rule="block-eq", families=("chacha", "salsa")):
             key = "%s:%s::%s:%s" % (rule, mod, name, inst)
             try:
                 msg = body(B, M, fn)
-            except simd.Unsupported as e:
-                ctx.fail(rule, "%s::%s@%s:%s" % (mod, name, cfg, inst), "%s::%s could not be evaluated to a value graph (%s)" % (mod, name, e), where=fn.where(), key=key + ":eval")
+            except (simd.Unsupported, KeyError, IndexError, TypeError, AttributeError, ValueError) as e:
+                # includes accesses outside the symbolic buffers: on the real machine those are bounds panics
+                ctx.fail(rule, "%s::%s@%s:%s" % (mod, name, cfg, inst), "%s::%s could not be evaluated to a value graph for this input shape (%s: %s): it panics, reads outside its buffers or uses a construct the evaluator does not model" % (mod, name, type(e).__name__, str(e)[:200]), where=fn.where(), key=key + ":eval")
                 return
             n += 1
             ctx.check(msg is None, rule, "%s::%s@%s:%s" % (mod, name, cfg, inst), okmsg + " (%d graph nodes)" % len(B.defs),
